@@ -23,23 +23,23 @@ REPO = os.environ.get("CIWVERIF_REPO", "/repo")
 PROPS = {
     "C01": dict(fam=["core1", "tandem", "prio", "cls", "renege", "route", "preempt", "sched", "schedpre", "slot", "ccw"],
                 mc=["core1", "tandem", "tri", "cls", "renege", "schedpre", "slot", "ccw", "jockey", "infblock", "renegesched"], inv=["Inv_C01"], step=["Step_C01"]),
-    "C02": dict(fam=["core1", "tandem", "prio", "renege", "cls"],
+    "C02": dict(fam=["core1", "tandem", "prio", "renege", "cls", "schedblock", "slotren"],
                 mc=["core1", "tandem", "renege", "prio", "renegesched", "slotpre", "infblock"], inv=[], step=["Step_C02"]),
-    "C03": dict(fam=["tandem", "route", "cls", "renege", "prio"],
+    "C03": dict(fam=["tandem", "route", "cls", "renege", "prio", "schedblock", "infblock"],
                 mc=["tandem", "tri", "route", "cls", "jockey", "infblock"], inv=["Inv_C03"], step=["Step_C03"]),
     "C06": dict(fam=["core1", "tandem", "renege"], mc=["core1", "tandem", "jockey"], inv=["Inv_C06"], step=["Step_C06"]),
     "C07": dict(fam=["tandem", "cls", "route"], mc=["tandem", "tri", "cls", "infblock"], inv=["Inv_C07"], step=["Step_C07"]),
     "C10": dict(fam=["core1", "tandem", "prio", "renege", "fault", "jockey"], mc=["core1", "tandem", "prio", "jockey", "slotpre"],
                 inv=["Inv_C10"], step=["Step_C10"]),
-    "C04": dict(fam=["tandem", "prio", "preempt", "sched", "schedpre", "core1"],
+    "C04": dict(fam=["tandem", "prio", "preempt", "sched", "schedpre", "core1", "schedblock"],
                 mc=["tandem", "preempt", "sched", "schedpre", "ppsched", "jsqsched"], inv=["Inv_C04"], step=["Step_C04"]),
-    "C12": dict(fam=["sched", "schedpre", "slot"], mc=["sched", "schedpre", "slot", "ppsched", "slotpre", "renegesched"], inv=["Inv_C12"], step=["Step_C12"]),
+    "C12": dict(fam=["sched", "schedpre", "slot", "slotpre", "slotren"], mc=["sched", "schedpre", "slot", "ppsched", "slotpre", "renegesched"], inv=["Inv_C12"], step=["Step_C12"]),
     "C05": dict(fam=["core1", "tandem", "prio", "preempt", "renege", "cls", "sched", "schedpre", "ccw"],
                 mc=["core1", "tandem", "prio", "preempt", "renege", "sched", "schedpre", "ppsched", "renegesched"], inv=["Inv_C05"], step=["Step_C05"]),
     "C08": dict(fam=["prio", "preempt", "cls", "renege", "ccw", "sched", "slot"], mc=["prio", "preempt", "cls", "ccw", "slot", "ppsched", "slotpre"], inv=[], step=["Step_C08"]),
     "C09": dict(fam=["route", "cls", "jsqsched", "tandem", "prio"], mc=["route", "cls", "tandem", "jsqsched", "jockey"], inv=["Inv_C09"], step=["Step_C09"]),
     "C11": dict(fam=["preempt", "ppccw"], mc=["preempt", "ppccw"], inv=["Inv_C11"], step=["Step_C11"]),
-    "C13": dict(fam=["renege", "core1"], mc=["renege", "jockey", "renegesched"], inv=["Inv_C13"], step=["Step_C13"]),
+    "C13": dict(fam=["renege", "core1", "jockey", "slotren", "renegesched"], mc=["renege", "jockey", "renegesched"], inv=["Inv_C13"], step=["Step_C13"]),
     "C16": dict(fam=["pause"], mc=["pause"], inv=["Inv_C04", "Inv_C01"], step=["Step_C16"]),
     "C17": dict(fam=["trk"], mc=["trk", "dead"], inv=["Inv_C17"], step=["Step_C17"]),
     "C18": dict(fam=["dead", "dead3"], mc=["dead"], inv=["Inv_C18"], step=["Step_C18"]),
@@ -49,7 +49,7 @@ PROPS = {
                 mc=["core1", "stopcount", "renegesched", "jsqsched"], inv=[], step=["Step_C14"]),
 }
 
-ALLFAM = ["mix", "mix", "mix", "ppccw", "eps", "pause", "date0", "jsqsched", "dead3", "jockey", "slotpre", "renegesched", "schedblock", "infblock", "ppsched", "ps", "core1", "tandem", "prio", "preempt", "cls", "clsren", "renege", "route", "sched", "schedpre", "schedblock",
+ALLFAM = ["mix", "mix", "mix", "ppccw", "eps", "slotren", "pause", "date0", "jsqsched", "dead3", "jockey", "slotpre", "renegesched", "schedblock", "infblock", "ppsched", "ps", "core1", "tandem", "prio", "preempt", "cls", "clsren", "renege", "route", "sched", "schedpre", "schedblock",
           "slot", "ccw", "trk", "reroute", "stopcount"]
 
 # vacuity gates (DESIGN section 5): witness tags that the validated traces of a check must contain at least once,
@@ -165,24 +165,44 @@ def load_known():
     return json.load(open(p))
 
 
+def explaining(open_f, v, clause, idx):
+    """open findings that explain `clause` failing at event `idx` of the trace with verdict v.
+    R4: the specification reproduces the documented deviations of the code (the unchanged tree is drift-free also in
+    tainted traces), so a finding only explains failures of a trace that *conformed* up to there: once the engine has
+    left the specification (a DRIFT the finding does not itself declare) at or before the failing event, the failure
+    is a different one and is reported."""
+    taint = {x[0]: x[1] for x in v.get("taint", [])}
+    out = []
+    for f in open_f:
+        if f["id"] not in taint or taint[f["id"]] > idx:
+            continue
+        if not any(clause.startswith(pat) for pat in f.get("explains", [])):
+            continue
+        ok = f.get("drift_ok", [])
+        bad = [d for d in v.get("drift", [])
+               if d[0] <= idx and not any((d[1] + ":" + ",".join(sorted(d[2]))).startswith(pat) for pat in ok)]
+        if bad:
+            continue
+        out.append(f)
+    return out
+
+
 def judge(prop, verdicts, traces, known):
     """splits failures of `prop` into violations and known findings"""
     viol, kf = [], []
     open_f = [f for f in known if f["status"] == "open" and prop in f["property"]]
     for v, t in zip(verdicts, traces):
-        taint = {x[0]: x[1] for x in v.get("taint", [])}
         for clause, idx in v["fails"]:
             if not clause.startswith(prop + "."):
                 continue
-            expl = [f for f in open_f if f["id"] in taint and taint[f["id"]] <= idx
-                    and any(clause.startswith(pat) for pat in f.get("explains", []))]
+            expl = explaining(open_f, v, clause, idx)
             if expl:
                 kf.append((expl[0], clause, idx, t))
             else:
                 viol.append((clause, idx, t, v))
         if t["outcome"] in ("crash", "livelock") and prop == "C14" and not t["cfg"].get("fault"):
             cr = t["crash"]
-            expl = [f for f in open_f if f["id"] in taint and "C14.no-crash" in f.get("explains", [])]
+            expl = explaining(open_f, v, "C14.no-crash", len(t["events"]) + 1)
             if expl:
                 kf.append((expl[0], "C14.no-crash", len(t["events"]), t))
             else:
